@@ -2,6 +2,7 @@
 
 #include <pika/modules/thread_manager.hpp>
 #include <pika/runtime/runtime.hpp>
+#include <pika/runtime/thread_pool_helpers.hpp>
 #include <pika/topology/topology.hpp>
 
 namespace vh::pk {
@@ -176,16 +177,21 @@ namespace vh::pk {
                 (long long) tm.get_thread_count(st::terminated));
         // where is pending work? per priority and worker
         using pr = pika::execution::thread_priority;
-        std::size_t nw = tm.get_os_thread_count();
-        for (pr p : {pr::low, pr::normal, pr::high})
-            for (std::size_t w = 0; w < nw; w++)
-            {
-                auto c = tm.get_thread_count(st::pending, p, w);
-                auto s2 = tm.get_thread_count(st::staged, p, w);
-                if (c || s2)
-                    out += sfmt(" [prio %d worker %zu: pending %lld staged %lld]", (int) p, w,
-                        (long long) c, (long long) s2);
-            }
+        std::size_t npools = pika::resource::get_num_thread_pools();
+        for (std::size_t pi = 0; pi < npools; pi++)
+        {
+            auto& pool = pika::resource::get_thread_pool(pi);
+            std::size_t nw = pool.get_os_thread_count();
+            for (pr p : {pr::low, pr::normal, pr::high})
+                for (std::size_t w = 0; w < nw; w++)
+                {
+                    auto c = pool.get_thread_count(st::pending, p, w, false);
+                    auto s2 = pool.get_thread_count(st::staged, p, w, false);
+                    if (c || s2)
+                        out += sfmt(" [pool %zu prio %d worker %zu: pending %lld staged %lld]", pi, (int) p, w,
+                            (long long) c, (long long) s2);
+                }
+        }
         return out;
     }
 
